@@ -116,7 +116,7 @@ struct StepOut {
 
 fn c24_step(part: Part) -> StepOut {
     let owner_is_a: bool = kani::any();
-    let mut f = fixture(owner_is_a, true);
+    let mut f = fixture_n(owner_is_a, true, false);
     let (o, so) = if owner_is_a { (f.a, f.sa) } else { (f.b, f.sb) };
     let w_is_a: bool = kani::any();
     let (w, sw) = if w_is_a { (f.a, f.sa) } else { (f.b, f.sb) };
@@ -146,7 +146,7 @@ fn c24_step(part: Part) -> StepOut {
             // dispose / unregister by the (new) owner: the record may be kept or released (see the hand-over obligations)
             assert!(nrec == 0 || (owner_after.is_some() && eq16(&owner_after.unwrap(), &w)), "C24: no third writer becomes owner");
         }
-        assert!(f.r.sample_list.len() == 2, "C24: the accepted change is stored");
+        assert!(f.r.sample_list.len() == 1, "C24: the accepted change is stored");
     } else if sw < so {
         assert!(c == 1, "C24: a change from a weaker writer is dropped (NotAdded)");
     } else {
@@ -154,10 +154,7 @@ fn c24_step(part: Part) -> StepOut {
     }
     if c == 1 {
         // dropped: no effect at all
-        assert!(
-            f.r.sample_list.len() == 1 && sample_is(&f.r.sample_list[0], &f.stored, f.stored.ss),
-            "C24: a dropped change leaves the stored samples untouched"
-        );
+        assert!(f.r.sample_list.len() == 0, "C24: a dropped change is not stored");
         assert!(
             nrec == 1 && owner_after.is_some() && eq16(&owner_after.unwrap(), &o),
             "C24: a dropped change leaves the owner untouched"
@@ -167,8 +164,8 @@ fn c24_step(part: Part) -> StepOut {
             "C24: a change dropped by the ownership test leaves view state, instance state and generation counts untouched"
         );
     }
-    if f.r.sample_list.len() == 2 {
-        let x = &f.r.sample_list[1];
+    if f.r.sample_list.len() == 1 {
+        let x = &f.r.sample_list[0];
         assert!(
             eq16(&x.writer_guid, &w) && x.kind == kind && x.sample_state == SampleStateKind::NotRead,
             "C24: the stored change is the received one"
@@ -293,7 +290,7 @@ fn c24_owner_unmatched__known() {
 
 /// Owner A (strictly stronger than B) sends `k1` (a dispose / unregister kind), then B sends data.
 fn handover(k1: ChangeKind, release_expected: bool) {
-    let mut f = fixture(true, true);
+    let mut f = fixture_n(true, true, false);
     kani::assume(f.sa > f.sb);
     kani::assume(f.inst.st == InstanceStateKind::Alive);
     let t1 = any_time();
@@ -319,7 +316,7 @@ fn handover(k1: ChangeKind, release_expected: bool) {
 
 // @check props=C24 tier=quick known=KF-C24-2
 // @desc the owner A (strictly stronger than B) DISPOSES the ALIVE instance (it stays registered and alive), then B writes: B's data must be dropped and the instance stays NOT_ALIVE_DISPOSED (expected to fail: add_reader_change removes the ownership record on every not-alive change, so after a mere dispose the weaker writer takes the instance over)
-// @bounds 1 instance, 1 stored sample, writers A and B with symbolic strengths sA > sB (full i32 range), two chained add_reader_change calls (NOT_ALIVE_DISPOSED from A, ALIVE from B) with symbolic reception times; unwind 4
+// @bounds 1 instance, no stored sample, writers A and B with symbolic strengths sA > sB (full i32 range), two chained add_reader_change calls (NOT_ALIVE_DISPOSED from A, ALIVE from B) with symbolic reception times; unwind 4
 // @assume trigger KF-C24-2: the owner's change is NOT_ALIVE_DISPOSED (dispose without unregister)
 // @assume I: one ownership record naming A; both writers matched; reader QoS: EXCLUSIVE ownership, KEEP_ALL, unlimited resource limits
 // @assume stub: InstanceHandle == is replaced by the equivalent branch-free 128-bit comparison (support_reader2::ih_eq; equivalence proved over all inputs by c20_stub_equivalence); [T; N] == / != [U; N] (used for the 16-byte writer guids and publication keys) by the element-wise loop-free support_reader2::arr_eq / arr_ne (equivalence on [u8; 16] proved over all inputs by c24_stub_equivalence)
@@ -335,7 +332,7 @@ fn c24_dispose_keeps_owner__known() {
 
 // @check props=C24 tier=quick
 // @desc ownership passes on unregister: the owner A (strictly stronger than B) unregisters the ALIVE instance (NOT_ALIVE_UNREGISTERED or NOT_ALIVE_DISPOSED_UNREGISTERED), then B writes: B's data is accepted and B is the owner
-// @bounds 1 instance, 1 stored sample, writers A and B with symbolic strengths sA > sB (full i32 range), two chained add_reader_change calls (unregister kind from A chosen symbolically, ALIVE from B) with symbolic reception times; unwind 4
+// @bounds 1 instance, no stored sample, writers A and B with symbolic strengths sA > sB (full i32 range), two chained add_reader_change calls (unregister kind from A chosen symbolically, ALIVE from B) with symbolic reception times; unwind 4
 // @assume negation of trigger KF-C24-2: the owner's change unregisters the instance
 // @assume I: one ownership record naming A; both writers matched; reader QoS: EXCLUSIVE ownership, KEEP_ALL, unlimited resource limits
 // @assume stub: InstanceHandle == is replaced by the equivalent branch-free 128-bit comparison (support_reader2::ih_eq; equivalence proved over all inputs by c20_stub_equivalence); [T; N] == / != [U; N] (used for the 16-byte writer guids and publication keys) by the element-wise loop-free support_reader2::arr_eq / arr_ne (equivalence on [u8; 16] proved over all inputs by c24_stub_equivalence)
